@@ -10,12 +10,12 @@ CLAIMED = {
  "C01": ("For every n<=4 (thorough: 5), every symmetric pattern and both storage forms, the solver proves for ALL real energies and "
          "positive V,S,h,D,T: the closed SqRA formula with one-sided cap on the pattern, zeros off it, zero row sums, detailed balance "
          "under the cap, shift invariance and linearity in D. Right level: the property is a universal statement over reals that "
-         "sampling cannot settle; the bound is the cell count.", "§5 C01"),
+         "sampling cannot settle; the bound is the cell count. Also (the one float effect addressed): whenever the statement's own exponent for an entry lies within [-350, 350] at T in {100, 300, 1000} K, every exponential the CODE evaluates on the way to that entry has its argument in [-700, 700] (no underflow/overflow of a double) -- a refactoring that is an identity over the reals but routes through per-cell Boltzmann weights fails this and the solver's witness is replayed. Repeat call on one object and untouched inputs are obligations too.", "§5 C01"),
  "C05": ("For every n_o<=4 (thorough 5), T in 2..4 (thorough 6) and every symmetric direction-adjacency pattern the solver proves, for ALL "
          "strictly increasing positive radii and ALL positive areas/arcs/angles: every cell volume, every pair's adjacency/border/distance "
          "entry equals the closed form of the statement (zero otherwise), identical stored pattern and entry order of the three matrices, "
          "shell/total volume sums and radial face sums given sum(area)=4*pi, boundary interleaving. The bound is the grid size; "
-         "unequal spacing and T>=3 (where index slips show) are inside it.", "§5 C05"),
+         "unequal spacing and T>=3 (where index slips show) are inside it. Other PositionGrid objects of the same process (collision twin with other radii under the same name, Cartesian twin under the same names) are built and queried before and after the construction of the grid under test.", "§5 C05"),
  "C12": ("For every trajectory length L<=6 (thorough 9), n<=3 (4) cells, tau<=3 (4), both window modes: ALL trajectories (every cell "
          "sequence and every NaN subset) are covered by one symbolic run per shape; proved: T_ij*s_i = c_ij+c_ji against an independently "
          "written window-count oracle, zero rows for unvisited cells, row sums, range, detailed balance w.r.t. visit counts, reversal "
@@ -26,7 +26,7 @@ CLAIMED = {
          "delete_rate_cells call with every join family / deletion list in the bound re-establishes the invariant entry-wise (solver, all "
          "real matrices) and returns the specified index list; zero row sums and symmetry preserved. One step covers histories of any "
          "length. SQRA.cut_and_merge runs on symbolic energies, temperature and limits (4 limit combinations). No exception allowed for "
-         "in-range arguments.", "§5 C13"),
+         "in-range arguments. Sparse inputs also with CONCRETE sparsity patterns on the exact-order csr model (rows without stored entries, no stored diagonal; off-diagonal > 0, diagonal < 0), so that code reading the CSR buffers is decided there.", "§5 C13"),
  "C17": ("For every token structure of 1..3 (thorough 4) tokens over the property's alphabet (8 algorithm names, zero, none, None, junk, -3, "
          "empty token, plain and zero-padded numbers) and both roles, the real parser runs with the VALUE of every numeric token symbolic "
          "(0<=n<10^6): on every feasible path the outcome is ValueError or (alg valid for role, N>=1, N=1 iff zero algorithm, N is the number "
@@ -38,24 +38,24 @@ CLAIMED = {
          "representatives is), and the three properties share one stored pattern. Assembly harness: the generic pair loop yields symmetric, "
          "empty-diagonal matrices on one pattern for arbitrary callback values (this discharges the contract the fold assumes). Distance harness: for "
          "ALL unit quaternions the sign-folded distance equals acos|p.q|, is symmetric and invariant under q->-q (staged lemmas: norms, Cauchy-Schwarz, "
-         "acos axioms).", "§5 C04"),
+         "acos axioms). History on one object: the caller rescales, in place, the matrices it was handed and asks again -- same answers. The half-sphere object is built by its real __init__ chain (Qhull's SphericalVoronoi replaced by a stand-in).", "§5 C04"),
  "C02": ("Composed run above the compiled geometry: direction stub -> real position assembly, full-sphere stub -> real antipode fold, both into the "
          "real FullGrid._get_N_N / get_full_* / get_total_volumes. For n_b<=3, n_o<=3, n_t in {2,3} (<=18 cells; thorough <=36), every direction "
          "pattern and every antipodally invariant rotation pattern, and ALL positive geometry values, radii and factors f: every entry of the "
          "three n x n matrices equals the closed form of the statement (position quantity x f / f^2 for same rotation, folded rotation quantity for "
          "same position, zero otherwise), symmetric, empty diagonal, stored entries > 0, identical indices/indptr and coo order for the three, "
-         "volume_n = V_pos[n div n_b] * V_rot[n mod n_b] * f^3.", "§5 C02"),
+         "volume_n = V_pos[n div n_b] * V_rot[n mod n_b] * f^3. Single-shell grids (n_t = 1, incl. a single position) are inside the bound. Histories: get_full_prefactors then the getters again; other FullGrid objects of the same process (another factor f and a colliding radial grid under the same lossy name; a Cartesian twin under the same names) are built and queried before the grid under test exists and again between its construction and its first getter; every path starts from import-time module/class state.", "§5 C02"),
  "C19": ("Exhaustive over the size box (n_b,n_o in 1..5, n_t in 1..4; thorough 1..7 / 1..5, plus the non-default algorithms) x both position modes x "
          "five getters: the REAL constructors, name/translation parsers, generators, the size threshold choosing the cell model and the real "
          "MikroVoronoi run; in the default mode the Qhull-backed Voronoi classes are contract stubs with symbolic positive values; in Cartesian mode the position part is concrete and the real Qhull classes run (only the 4-D rotation cells are stubs). On every feasible path each getter returns "
          "the right shape or raises ValueError (Cartesian n_o<3: QhullError allowed). Sizes are enumerated, so the solver's "
          "share is small here (stub values only) -- said plainly in DESIGN; the failing mechanisms are in molgri's Python dispatch, which the run reaches. "
-         "Counterexamples are replayed through the public API with real Qhull.", "§5 C19"),
+         "Counterexamples are replayed through the public API with real Qhull. Call histories on one object: listed order twice, reversed then listed, forwarded position getters first, borders first, distances first.", "§5 C19"),
  "C10": ("For molecules of 1-2 + 1-4 atoms and 1-4 frames (thorough 3 + 6 atoms, 6 frames), ALL real atom positions, positive masses and an "
          "ARBITRARY symbolic grid array (any positions, any non-zero quaternions): one frame per row in row order, atom order molecule 1 then 2, "
          "molecule 1 unchanged, every atom of molecule 2 at R(q_k)(x0 - c0) + c0 + p_k (so COM at c0 + p_k), the caller's universes untouched; "
          ">= 2 frames exposes state carried between frames. R(q) is proved orthogonal with det 1 for all q != 0 (distance preservation). "
-         "TwoMoleculeWriter._center_both_molecules proved to be a pure translation putting both COMs at the origin.", "§5 C10"),
+         "TwoMoleculeWriter._center_both_molecules proved to be a pure translation putting both COMs at the origin. Trajectory-as-universe API on a memory-universe model with MDAnalysis' sharing rules: get_pt_as_universe has one frame per row in row order with the prescribed placement, the one-molecule universes are the corresponding atom blocks, and both still hold after the caller edited the derived universes in place.", "§5 C10"),
  "C16": ("For every text template in the bound (number; lists/tuples of <=4 (5) numbers in any order; linspace with num 1..5 and default; "
          "range/arange with 1-3 arguments) the template's NUMBERS are symbolic reals: proved for ALL values: result = 10 x intended values "
          "(sorted permutation for lists via counting; closed forms for linspace/arange with the arange length decided by forking, <= 6), rejection "
@@ -66,11 +66,11 @@ CLAIMED = {
          "coordinate positive', exactly one of q and -q is canonical; hemisphere_quaternion_set returns, row by row, the representative in the "
          "requested half (N<=2, thorough 3); the real SphereGrid4Dim._gen_grid / gen_grid on an arbitrary canonical unit half grid G (N<=4) yields "
          "[G; -G] in order, only_upper returns exactly G, upper indices 0..N-1, and a row whose length is off 1 is rejected by the norm assertion. "
-         "That the concrete generators produce N distinct, well-separated points is a concrete run with nothing to quantify over: outside.", "§5 C07"),
+         "That the concrete generators produce N distinct, well-separated points is a concrete run with nothing to quantify over: outside. History: the canonical-representative helper applied to the double-cover array a grid handed out must leave the grid [G; -G].", "§5 C07"),
  "C09": ("For n_b,n_o,n_t in 1..3 (thorough 4) with symbolic direction coordinates, quaternions and radii: the array has n_t*n_o*n_b rows of 7; for a "
          "SYMBOLIC row index n the row equals (r_{(n div n_b) div n_o} * o_{(n div n_b) mod n_o}, q_{n mod n_b}); the position array likewise; the "
          "index helpers equal n div n_b / n mod n_b for symbolic n and for index arrays (each single index, reversed, seeded subset with repeats). "
-         "The decomposition back into o/b/t grids (np.unique on rounded float rows) is outside.", "§5 C09"),
+         "The decomposition back into o/b/t grids (np.unique on rounded float rows) is outside. Other grids of the same process under the same lossy names are built and asked for their arrays before and after the construction of the grid under test.", "§5 C09"),
  "C11": ("Claimed for radial, direction and index composition; the rotation index b is a stub (eigen-decomposition + SVD: outside) and so is the round "
          "trip. Radial: for n_t in 2..4 (thorough 6), ALL increasing radii and ALL centre-of-mass vectors: the returned index k satisfies "
          "R_{k-1} <= |c| <= R_k with the C05/C16 boundaries AND is a nearest radius (the two coincide), NaN iff |c| > R_T unless outliers are included. "
@@ -78,6 +78,16 @@ CLAIMED = {
          "a chain of small lemmas (norm positive, |u|=1, keys, key order from the path's comparisons, monotone squares, expansion, positive scaling) "
          "each discharged in milliseconds where the direct query is unknown in every solver. Composition through the real get_full_assignments with "
          "n_t=3, n_o=2, n_b in {1,3}: index = (t*n_o+o)*n_b+b, NaN propagates.", "§5 C11"),
+ "C20": ("Two families on the real molgri.io code. xvg: EnergyReader.load_energy / _get_column_names / load_single_energy_column run on a file whose "
+         "13..15 (thorough ..18) header lines have SYMBOLIC kinds ('#' lines first, at most 13, then '@' lines; which '@' lines are series legends, at "
+         "symbolic positions, with symbolic increasing numbers 0..9; also all ten legends), 0..2 data lines with symbolic values; `open` hands out line "
+         "objects answering startswith/split symbolically, pandas.read_csv is a model of the keyword semantics the reader uses (skiprows counts "
+         "physical lines, full-line comments dropped, header=None, names) differentially self-tested against real pandas every run. Proved on every "
+         "feasible path: columns = time column then the legend texts in file order (a header line is a column iff it is a legend), one row per data "
+         "line in file order with the exact values, single-column access, same table on a second read. persist: the real GridWriter.__init__/save_* "
+         "and GridReader.load_* with npy/npz as the identity (self-tested on real files): all five artefacts read back entry-wise identical in format, "
+         "shape, pattern, stored order and value to the grid's getters, also after a second write, and writing leaves the grid untouched. The csv round "
+         "trip (pure pandas) and the byte formats are outside.", "§5 C20"),
  "C14": ("Claimed for the first sentence (the spectral sentence -- ARPACK, sorting, dense agreement -- is outside). One symbolic run end to end above the "
          "compiled geometry: stubs -> real fold + real position assembly -> real FullGrid getters -> real GridWriter.save_* / GridReader.load_* (file "
          "formats modelled as the identity, validated on real files each run) -> real SQRA.get_rate_matrix with symbolic energies, for "
@@ -93,7 +103,6 @@ NA = {
  "C08": "Quantifies over call histories of Qhull+networkx+MT19937 and demands bit-identical floats; the real-number/UF model cannot express bit identity and modelling the RNG as a UF leaves the solver nothing to decide.",
  "C15": "A +-12%/+-30% accuracy band of a convex-hull + Monte-Carlo approximation against the true cell measure: numerical quality of Qhull output, no symbolic formulation.",
  "C18": "A ground fact per subdivision level: one concrete networkx/float-key run with no input to make symbolic; unrolling it into SMT would be a concrete execution in disguise.",
- "C20": "npy/npz/pandas C parsers: nothing symbolic survives the I/O boundary; the pure-Python legend scan was 'Not confirmed' by CrossHair after 120 s for 2 legends x 2 chars and does not decide the property (skiprows semantics live in pandas).",
 }
 PENDING = "check for this property is designed (DESIGN.md §5) but not yet registered in this commit; it is not claimed until its harness passes on the unchanged tree"
 ALL = [f"C{i:02d}" for i in range(1, 21)]
